@@ -75,6 +75,13 @@ FIRE = [
     ("basis-Y-wrong-sign", "C02", [(MB, 'gates.append(Gate("RX", qubit_index, parameter=np.pi/2))', 'gates.append(Gate("RX", qubit_index, parameter=-np.pi/2))')], "K9.measurement-basis"),
     ("expectation-drops-initial-state", "C02", [(BACK, "            frequencies, _ = self.simulate(full_circuit,\n                                           initial_statevector=updated_statevector,\n                                           desired_meas_result=desired_meas_result)\n            expectation_term",
                                                  "            frequencies, _ = self.simulate(full_circuit,\n                                           desired_meas_result=desired_meas_result)\n            expectation_term")], "K"),
+    ("trim-z-sign-on-zero-state", "C14", [(TRIM, "            elif (term[qubit], trim_states[qubit]) == ('Z', 1):", "            elif (term[qubit], trim_states[qubit]) == ('Z', 0):")], "K9.trim-operator"),
+    ("trim-y-not-dropped", "C14", [(TRIM, "            if term[qubit] in {'X', 'Y'}:", "            if term[qubit] in {'X'}:")], "K9.trim-operator"),
+    ("trim-reindex-ignores-removed-count", "C14", [(TRIM, "new_term[:qubit - i] + new_term[qubit - i + 1:] if reindex", "new_term[:qubit] + new_term[qubit + 1:] if reindex")], "K9.trim-operator"),
+    ("trim-states-unsorted", "C14", [(TRIM, "    return circuit_new, dict(sorted(trim_states.items()))", "    return circuit_new, trim_states")], "K9.trim-operator"),
+    ("trim-idle-qubit-state-one", "C14", [(TRIM, "    for qubit_idx in set(range(circuit.width)) - used_qubits:\n        trim_states[qubit_idx] = 0", "    for qubit_idx in set(range(circuit.width)) - used_qubits:\n        trim_states[qubit_idx] = 1")], "K9.trim-fold"),
+    ("trim-loses-unclassified-pair", "C14", [(TRIM, "                else:\n                    circuit_new += circ\n            else:\n                circuit_new += circ\n", "                else:\n                    circuit_new += circ\n")], "K9.trim-fold"),
+    ("trim-hadamard-as-phase", "C14", [(TRIM, '            if gate0.name in {"RZ", "Z"}:\n                qubit_idx = e_indices[i].pop()\n                trim_states[qubit_idx] = 0\n            elif gate0.name in {"X", "RX"} and gate_0_is_bitflip:', '            if gate0.name in {"RZ", "Z", "H"}:\n                qubit_idx = e_indices[i].pop()\n                trim_states[qubit_idx] = 0\n            elif gate0.name in {"X", "RX"} and gate_0_is_bitflip:')], "K9.trim"),
     # ---- C06
     ("ladder-not-reversed", "C06", [(AU, "    gates += cnot_ladder_gates[::-1]", "    gates += cnot_ladder_gates")], "K9.exp-pauliword"),
     ("negative-angle-offset", "C06", [(AU, "    angle = 2.*coef if coef >= 0. else 4*np.pi+2*coef", "    angle = 2.*coef if coef >= 0. else 2*np.pi+2*coef")], "K9.angle-law"),
@@ -169,6 +176,10 @@ SILENT = [
     ("collapse-renormalise-spelling", "C10", [(BACK, "    sv_selected = sv_selected/sqrt_probability  # casting issue if inplace for probability 1\n\n    return sv_selected, sqrt_probability**2", "    probability = sqrt_probability*sqrt_probability\n    return sv_selected/sqrt_probability, probability")]),
     ("collapse-qubit-bound-spelling", "C10", [(BACK, "    if qubit > n_qubits-1:", "    if qubit >= n_qubits:")]),
     ("collapse-reshape-method", "C10", [(BACK, "    sv_selected = np.reshape(statevector.copy(), (before_index_length, 2, after_index_length))", "    sv_selected = statevector.copy().reshape(before_index_length, 2, after_index_length)")]),
+    ("trim-factor-spelling", "C14", [(TRIM, "            if term[qubit] in {'X', 'Y'}:", "            if term[qubit] == 'X' or term[qubit] == 'Y':"), (TRIM, "                c[i] = -1\n", "                c[i] = -1.0\n")]),
+    ("trim-states-sorted-by-key", "C14", [(TRIM, "    return circuit_new, dict(sorted(trim_states.items()))", "    return circuit_new, {q: trim_states[q] for q in sorted(trim_states)}")]),
+    ("trim-more-phase-gates", "C14", [(TRIM, '            if gate0.name in {"RZ", "Z"}:\n                qubit_idx = e_indices[i].pop()\n                trim_states[qubit_idx] = 0\n            elif gate0.name in {"X", "RX"} and gate_0_is_bitflip:', '            if gate0.name in {"RZ", "Z", "S", "T", "PHASE"}:\n                qubit_idx = e_indices[i].pop()\n                trim_states[qubit_idx] = 0\n            elif gate0.name in {"X", "RX"} and gate_0_is_bitflip:')]),
+    ("trim-y-flips-too", "C14", [(TRIM, '            elif gate0.name in {"X", "RX"} and gate_0_is_bitflip:\n                qubit_idx = e_indices[i].pop()\n                trim_states[qubit_idx] = 1\n            else:', '            elif gate0.name in {"X", "RX", "Y", "RY"} and gate_0_is_bitflip:\n                qubit_idx = e_indices[i].pop()\n                trim_states[qubit_idx] = 1\n            else:')]),
     ("angle-law-spelling", "C06", [(AU, "    angle = 2.*coef if coef >= 0. else 4*np.pi+2*coef", "    angle = 2.*coef + (0. if coef >= 0. else 4*np.pi)")]),
     ("cirq-branches-reordered", "C01", [(TCIRQ, '        elif gate_name in {"SWAP"}:\n            target_circuit.append(GATE_CIRQ[gate_name](qubit_list[gate.target[0]], qubit_list[gate.target[1]]))\n        elif gate_name in {"CSWAP"}:\n            next_gate = GATE_CIRQ[gate_name].controlled(num_controls)\n            target_circuit.append(next_gate(*control_list, qubit_list[gate.target[0]], qubit_list[gate.target[1]]))\n',
                                          '        elif gate_name in {"CSWAP"}:\n            next_gate = GATE_CIRQ[gate_name].controlled(num_controls)\n            target_circuit.append(next_gate(*control_list, qubit_list[gate.target[0]], qubit_list[gate.target[1]]))\n        elif gate_name in {"SWAP"}:\n            target_circuit.append(GATE_CIRQ[gate_name](qubit_list[gate.target[0]], qubit_list[gate.target[1]]))\n')]),
